@@ -30,7 +30,7 @@ RULE = ('cases are (response kind, method, header set) over a scenario applicati
         'distinct by hash of the case')
 ASSUMPTIONS = ['input-side assertions of the validator (how Werkzeug reads wsgi.input) are not attributed to clastic',
                'for non-unique middleware types the number of wrapper applications is not fixed by the statement (O5); order is checked']
-REQUIRED_REACH = ['schedules:first-requests', 'accept-charset-sent', 'validated:plain', 'validated:stream', 'validated:rendered', 'validated:static', 'validated:staticroute',
+REQUIRED_REACH = ['wrapper-lists-with-a-repeated-type', 'schedules:first-requests', 'accept-charset-sent', 'validated:plain', 'validated:stream', 'validated:rendered', 'validated:static', 'validated:staticroute',
                   'validated:304', 'validated:redirect', 'validated:404', 'validated:405', 'validated:500', 'validated:debug-500',
                   'validated:debug-404', 'validated:meta', 'validated:gzip', 'validated:cache', 'validated:head', 'validated:post',
                   'files-opened', 'files-closed-after-close', 'wrapper-stacks:depth>=2', 'wrapper-stacks:embedded',
@@ -777,8 +777,49 @@ def first_requests(sh, spec):
                 return
 
 
+def wrapper_types_once(sh):
+    """One application-level list that names a unique WSGI-wrapping type more than once: the type is applied once (its first
+    instance), the others keep their list order."""
+    from clastic import Application, Route, Response, Middleware
+
+    def mk(name):
+        class W(Middleware):
+            def __init__(self, label):
+                self.label = label
+
+            def request(self, next):
+                return next()
+
+            def wsgi_wrapper(self, wsgi_app):
+                def wrapped(environ, start_response):
+                    environ.setdefault('vt.wrappers', []).append(self.label)
+                    return wsgi_app(environ, start_response)
+                return wrapped
+        W.__name__ = name
+        return W
+    O, I, X = mk('Outer'), mk('Inner'), mk('Extra')
+    for labels, mws in ((['o', 'i'], [O('o'), I('i')]), (['o', 'i'], [O('o'), I('i'), O('o-again')]), (['a'], [O('a'), O('b')]),
+                        (['i', 'o'], [I('i'), O('o'), I('i2'), O('o2')]), (['x', 'o', 'i'], [X('x'), O('o'), O('o2'), I('i'), X('x2')])):
+        case = {'wrapper_types_once': [m.label for m in mws]}
+        try:
+            app = Application([Route('/', lambda: Response('x'))], middlewares=mws)
+        except Exception as e:
+            sh.violation('C13/wrapper-stack-refused', 'an application whose list is %r was refused: %r' % (case['wrapper_types_once'], e), case)
+            return
+        env = probe.make_environ('GET', '/')
+        ex = probe.call_wsgi(app, env)
+        got = list(env.get('vt.wrappers') or [])
+        sh.case(case, nontrivial=True, klass='wrapper-types-once')
+        sh.hit('wrapper-lists-with-a-repeated-type')
+        if ex.exc is not None or ex.status != 200 or got != labels:
+            sh.violation('C13/wrapper-order-or-count', 'application-level list %r: the request passed the wrappers %r (status %s), expected %r - '
+                         'each unique type once, in list order' % (case['wrapper_types_once'], got, ex.status, labels), case)
+            return
+
+
 def run_shard(sh, spec):
     if spec.get('kind') == 'first-requests':
+        wrapper_types_once(sh)
         return first_requests(sh, spec)
     rng = Rng(spec['seed'], PROPERTY, spec['label'])
     sc = Scenario()
@@ -820,6 +861,8 @@ def run_shard(sh, spec):
 def replay(sh, case, spec):
     if case.get('first_requests'):
         return first_requests(sh, spec)
+    if 'wrapper_types_once' in case:
+        return wrapper_types_once(sh)
     if 'wrappers' in case:
         judge_wrappers(sh, case['wrappers'])
         return
